@@ -30,7 +30,7 @@ struct verif_in {
 VERIF_DECLARE_IN
 
 static unsigned g_open_calls;
-static int g_bad_flags;
+static int g_bad_flags, g_writable_ok;
 
 static int v_open(const char *path, int flags, ...)
 {
@@ -38,18 +38,24 @@ static int v_open(const char *path, int flags, ...)
 	(void)path;
 	if ((flags & O_ACCMODE) != O_RDONLY || (flags & (O_CREAT | O_TRUNC | O_APPEND)) != 0)
 		g_bad_flags = 1;
-	VERIF_ASSERT((flags & O_ACCMODE) == O_RDONLY, "the file is opened read-only");
-	VERIF_ASSERT((flags & (O_CREAT | O_TRUNC | O_APPEND)) == 0, "the open can neither create nor truncate nor append");
+	if (!g_writable_ok) {
+		VERIF_ASSERT((flags & O_ACCMODE) == O_RDONLY, "the file is opened read-only");
+		VERIF_ASSERT((flags & (O_CREAT | O_TRUNC | O_APPEND)) == 0, "the open can neither create nor truncate nor append");
+	} else {
+		VERIF_ASSERT((flags & (O_TRUNC | O_APPEND)) == 0, "a parity file is never truncated or appended to by opening it");
+	}
 	r = IN.open_ret[g_open_calls < 2 * SPLIT_MAX ? g_open_calls : 0];
 	if (r < 0)
 		errno = IN.open_errno[g_open_calls < 2 * SPLIT_MAX ? g_open_calls : 0];
 	++g_open_calls;
 	return r < 0 ? -1 : 3 + (int)g_open_calls;
 }
+static unsigned g_fstat_calls;
 static int v_fstat(int fd, struct stat *st)
 {
 	(void)fd;
-	st->st_size = IN.st_size[0];
+	st->st_size = IN.st_size[g_fstat_calls < SPLIT_MAX ? g_fstat_calls : 0];
+	++g_fstat_calls;
 	return IN.fstat_ret ? -1 : 0;
 }
 static int v_close(int fd) { (void)fd; return 0; }
@@ -96,7 +102,7 @@ void h_handle_open(void)
 	H.file = IN.already_open ? &FL : &OTHER;
 	H.f = IN.already_open ? 7 : -1;
 	H.created = 1;
-	g_open_calls = 0;
+	g_open_calls = g_fstat_calls = 0;
 	r = handle_open(&H, &FL, IN.mode, v_out, 0);
 	VERIF_ASSERT(r == 0 || r == -1, "handle_open returns 0 or -1");
 	if (!IN.already_open) {
@@ -123,11 +129,43 @@ void h_parity_open(void)
 		PR.split_map[s].size = IN.rec_size[s];
 		PR.split_map[s].path[0] = 0;
 	}
-	g_open_calls = 0;
+	g_open_calls = g_fstat_calls = 0;
 	r = parity_open(&PH, &PR, 0, IN.mode, 256, 0);
 	VERIF_ASSERT(r == 0 || r == -1, "parity_open returns 0 or -1");
-	if (r == 0)
+	if (r == 0) {
 		VERIF_ASSERT(PH.split_mac == IN.split_mac && g_open_calls >= IN.split_mac, "every configured split is opened");
+		/* the address map (parity_split_find) works on split->size: it must be the RECORDED size, whatever the file on disk
+		 * looks like now; only a split without a recorded size takes the size it has */
+		for (s = 0; s < SPLIT_MAX; ++s)
+			if (s < IN.split_mac)
+				VERIF_ASSERT(PH.split_map[s].size == (IN.rec_size[s] == PARITY_SIZE_INVALID ? IN.st_size[s] : IN.rec_size[s]),
+					"the split sizes the address map uses are the recorded ones (the real size only where none is recorded)");
+	}
+	VERIF_CANARY();
+}
+
+void h_parity_create(void)
+{
+	static struct snapraid_parity_handle PH;
+	static struct snapraid_parity PR;
+	unsigned s;
+	int r;
+	VERIF_INPUTS();
+	VERIF_ASSUME(IN.split_mac <= SPLIT_MAX);
+	PR.split_mac = IN.split_mac;
+	for (s = 0; s < SPLIT_MAX; ++s) {
+		PR.split_map[s].size = IN.rec_size[s];
+		PR.split_map[s].path[0] = 0;
+	}
+	g_open_calls = g_fstat_calls = 0;
+	g_writable_ok = 1;
+	r = parity_create(&PH, &PR, 0, IN.mode, 256, 0);
+	VERIF_ASSERT(r == 0 || r == -1, "parity_create returns 0 or -1");
+	if (r == 0)
+		for (s = 0; s < SPLIT_MAX; ++s)
+			if (s < IN.split_mac)
+				VERIF_ASSERT(PH.split_map[s].size == (IN.rec_size[s] == PARITY_SIZE_INVALID ? IN.st_size[s] : IN.rec_size[s]),
+					"the split sizes the address map uses are the recorded ones (the real size only where none is recorded)");
 	VERIF_CANARY();
 }
 
